@@ -1,6 +1,7 @@
 #!/bin/sh
 # usage: tools/try_all.sh <patch.diff> — apply a seeded change, run all 20 quick checks, list the properties that raise a violation, undo
 cd /verif
+git -C /repo diff --quiet || { echo "refusing: /repo has uncommitted changes (commit them first)"; exit 2; }
 git -C /repo apply "$1" || { echo "patch does not apply"; exit 2; }
 for i in 01 02 03 04 05 06 07 08 09 10 11 12 13 14 15 16 17 18 19 20; do ./check C$i quick 2>&1 | grep "^VIOLATION\|ENGINE" | cut -c1-220; done
 git -C /repo checkout -- .
